@@ -560,10 +560,15 @@ def keyword_search(rows, parent=None, row_keys_change=False, **kwargs):
 
         # Now build the 'transformed' key - the search keywords we recognise -
         # out of the keys we found.
+        # Keys that differ only in space, dash and underscore share a keyword.
+        # Take them in a fixed order, and let a key that needs no translation
+        # always be named by itself, so the result does not depend on the
+        # iteration order of a set.
         txkeys = dict(
             (key.replace(' ', '_').replace('-', '_'), key)
-            for key in all_keys
+            for key in sorted(all_keys)
         )
+        txkeys.update((key, key) for key in all_keys if key in txkeys)
         if parent is not None:
             setattr(parent, txform_cache_attr, txkeys)
 
